@@ -1,10 +1,12 @@
 package netprops
 
 import (
+	"crypto/tls"
 	"encoding/json"
 	"fmt"
 	"reflect"
 	"sort"
+	"sync"
 	"time"
 
 	"github.com/ansible/receptor/pkg/netceptor"
@@ -23,6 +25,10 @@ type C18Delivery struct {
 type C18Scn struct {
 	NPeers     int           `json:"npeers"`
 	Deliveries []C18Delivery `json:"deliveries"`
+	// OwnEcho > 0: the node itself opens an advertised service and closes it again; afterwards a neighbour delivers the node's own
+	// (older) advertisement of it, as happens when that advertisement was still travelling round a cycle: 1 = once, 2 = after
+	// the node has opened and closed the service a second time as well
+	OwnEcho int `json:"own_echo,omitempty"`
 }
 
 var c18Base = time.Date(2030, 1, 1, 0, 0, 0, 0, time.UTC)
@@ -138,6 +144,45 @@ func execC18(b []byte) vx.Verdict {
 		}
 		labels = append(labels, "class:"+class+"-"+kind)
 	}
+	// ---- the node's own service: closed means not listed, whatever comes back from the mesh
+	if s.OwnEcho > 0 {
+		echoVia := peers[len(s.Deliveries)%len(peers)]
+		for round := 0; round < s.OwnEcho && round < 2; round++ {
+			pc, err := sut.N.ListenPacketAndAdvertise("own1", map[string]string{"round": fmt.Sprint(round)})
+			if err != nil {
+				return vx.Inconclusive("own service: %v", err)
+			}
+			// the advertisement as the node itself holds it (this is what it floods; here the advertisement timer is off)
+			info, ok := sut.N.GetServiceInfo(sutID, "own1")
+			if !ok {
+				return vx.Violation("listing-follows-newest", "C18/own-not-listed", "the node does not list its own open advertised service own1")
+			}
+			captured := &vx.ServiceAd{NodeID: sutID, Service: "own1", Time: info.Time, ConnType: info.ConnType, Tags: info.Tags}
+			_ = pc.Close()
+			if vx.WaitFor(10*time.Second, 5*time.Millisecond, func() string {
+				for _, a := range echoVia.Ads() {
+					if a.NodeID == sutID && a.Service == "own1" && a.Cancel && a.Time.After(captured.Time) {
+						return ""
+					}
+				}
+				return "not withdrawn yet"
+			}) != "" {
+				return vx.Violation("newer-is-relayed", "C18/own-not-withdrawn", "the withdrawal of the node's own service own1 did not reach %s within 10 s", echoVia.ID)
+			}
+			// the older advertisement comes back from the mesh
+			if err := echoVia.Send(vx.EncodeAd(captured)); err != nil {
+				return vx.Inconclusive("send: %v", err)
+			}
+			if !echoVia.Barrier(10 * time.Second) {
+				return vx.Inconclusive("barrier after own echo timed out")
+			}
+			if _, listed := sut.N.GetServiceInfo(sutID, "own1"); listed {
+				return vx.CertainViolation("listing-follows-newest", "C18/own-service-resurrected", "the node closed its own service own1 (withdrawal sent at a later time than the advertisement of %v); when that older advertisement came back from neighbour %s the node listed the service again (history %v)", captured.Time, echoVia.ID, hist)
+			}
+			labels = append(labels, "own-advertisement-echoed-after-close")
+			nontrivial = true
+		}
+	}
 	// the Status() view agrees
 	var listed []string
 	for _, a := range sut.N.Status().Advertisements {
@@ -163,19 +208,19 @@ func execC18(b []byte) vx.Verdict {
 // ---- (B) real mesh with advertised listeners ------------------------------------------------------------
 
 type C18Event struct {
-	K     string `json:"k"` // open | close | join
+	K     string `json:"k"` // open | close | join | reopen | storm
 	Node  int    `json:"n"`
-	Svc   int    `json:"s,omitempty"`   // service name index
-	Kind  int    `json:"kind,omitempty"` // 0 datagram, 1 stream
+	Svc   int    `json:"s,omitempty"`    // service name index
+	Kind  int    `json:"kind,omitempty"` // 0 datagram, 1 stream, 3 stream with a TLS configuration
 	Tags  int    `json:"tags,omitempty"`
 	GapMs int    `json:"gap,omitempty"`
 }
 
 type C18Mesh struct {
-	N       int        `json:"n"`
-	Links   []C01Link  `json:"links"`
-	Late    []int      `json:"late"` // nodes that are not started at the beginning (they join by a join event, or at the end)
-	Events  []C18Event `json:"events"`
+	N      int        `json:"n"`
+	Links  []C01Link  `json:"links"`
+	Late   []int      `json:"late"` // nodes that are not started at the beginning (they join by a join event, or at the end)
+	Events []C18Event `json:"events"`
 }
 
 var c18Tags = []map[string]string{nil, {"type": "x"}, {"a": "1", "b": "2"}, {"type": "Control Service"}}
@@ -216,6 +261,7 @@ func execC18Mesh(b []byte) vx.Verdict {
 	labels := []string{}
 	closes, joins := 0, 0
 	streamCtr := 0
+	stormCtr := 0
 	for _, ev := range s.Events {
 		time.Sleep(time.Duration(ev.GapMs) * time.Millisecond)
 		ni := ev.Node % s.N
@@ -253,11 +299,17 @@ func execC18Mesh(b []byte) vx.Verdict {
 				}
 				open[key] = &c18Open{closeFn: func() { _ = pc.Close() }, connType: netceptor.ConnTypeDatagram, tags: tags}
 			} else {
-				li, err := n.ListenAndAdvertise(svc, nil, tags)
+				var tcfg *tls.Config
+				ct := byte(netceptor.ConnTypeStream)
+				if ev.Kind%4 == 3 {
+					// a listener with a user-supplied TLS configuration is advertised with its own type
+					tcfg, ct = c18TLS(), netceptor.ConnTypeStreamTLS
+				}
+				li, err := n.ListenAndAdvertise(svc, tcfg, tags)
 				if err != nil {
 					return vx.Inconclusive("ListenAndAdvertise %s: %v", key, err)
 				}
-				open[key] = &c18Open{closeFn: func() { _ = li.Close() }, connType: netceptor.ConnTypeStream, tags: tags}
+				open[key] = &c18Open{closeFn: func() { _ = li.Close() }, connType: ct, tags: tags}
 			}
 			labels = append(labels, "open")
 		case "reopen":
@@ -328,6 +380,31 @@ func execC18Mesh(b []byte) vx.Verdict {
 			if cur != nil {
 				open[k] = cur
 			}
+		case "storm":
+			// many advertised services of one node, closed one after the other across one advertisement period: some of the
+			// closes fall between the moment the periodic round collects the node's services and the moment it sends them
+			if !started[ni] {
+				continue
+			}
+			n := m.Node(name).N
+			k := 24 + (ev.Svc+ev.Tags)%3*12
+			var pcs []netceptor.PacketConner
+			for i := 0; i < k; i++ {
+				pc, err := n.ListenPacketAndAdvertise(fmt.Sprintf("t%d-%d", stormCtr, i), nil)
+				if err != nil {
+					return vx.Inconclusive("storm open: %v", err)
+				}
+				pcs = append(pcs, pc)
+			}
+			stormCtr++
+			time.Sleep(2*opts.ServiceAd + 50*time.Millisecond) // all of them have been advertised at least once
+			per := opts.ServiceAd / time.Duration(k)
+			for _, pc := range pcs {
+				_ = pc.Close()
+				time.Sleep(per)
+			}
+			closes += k
+			labels = append(labels, "close-storm")
 		case "close":
 			var keys []string
 			for k := range open {
@@ -402,6 +479,20 @@ func execC18Mesh(b []byte) vx.Verdict {
 		return vx.Violation("converge", "C18/no-convergence", "after %v: %s", time.Since(start).Round(time.Millisecond), msg)
 	}
 	return vx.OK(closes >= 1 && joins >= 1, dedup(labels)...)
+}
+
+var (
+	c18TLSOnce sync.Once
+	c18TLSCfg  *tls.Config
+)
+
+// c18TLS is a server-side TLS configuration (nobody dials these listeners; only their advertised type matters).
+func c18TLS() *tls.Config {
+	c18TLSOnce.Do(func() {
+		ca := vx.NewCA("c18 listener", "c18-listener", nil)
+		c18TLSCfg = &tls.Config{Certificates: []tls.Certificate{{Certificate: [][]byte{ca.Cert.Raw}, PrivateKey: ca.Key}}, MinVersion: tls.VersionTLS12}
+	})
+	return c18TLSCfg
 }
 
 func replaceSlash(s string) string {
